@@ -21,6 +21,7 @@ IMPORTS = ("From Coq Require Import String.\nFrom FV Require Import Base.Str Bas
 GOOD = [".f90", ".F90", ".f", ".F", ".for", ".FOR", ".fOr", ".f03", ".F08", ".fpp", ".FPP", ".f77", ".f95", ".F18", ".f05", ".fPp"]
 BAD = [".f9", ".f90.bak", ".ff", ".txt", ".ff90", "f90", ".F900", ".f90x", ".fo", ".fp", ".9f", ""]
 EXTRA = [".inc", ".h", "inc", ".FYP"]
+EXTRA_CASE = [".INC", ".Inc", ".H", "INC", ".fyp", ".Fyp"]   # differ from a configurable suffix by letter case only
 STEMS = ["a", "b", "mod_x", "x y", "q[1]", "é", "main", "t_tmp", "lib.v2"]
 DIRS = ["src", "sub", "inc", "skip", "d e", "lib", "x"]
 
@@ -39,7 +40,7 @@ def gen_tree(rng):
             dirs.append(d)
     for _ in range(rng.choice([1, 3, 5, 8, 12])):
         d = rng.choice(dirs)
-        suf = rng.choice(GOOD + GOOD + BAD + EXTRA)
+        suf = rng.choice(GOOD + GOOD + BAD + EXTRA + EXTRA_CASE)
         n = rng.choice(STEMS) + suf
         if rng.random() < 0.1:
             n = rng.choice(STEMS) + rng.choice(["_tmp.f90", "_h5.F90"])
@@ -315,7 +316,7 @@ def run_cases(ctx, cases, label):
 
 def fixed_cases():
     t = {"a.f90": "F", "b.txt": "F", "sub": "D", "sub/x.F": "F", "sub/y.f90.bak": "F", "empty": "D", "sub/deep": "D", "sub/deep/z.for": "F",
-         "skip": "D", "skip/s.f90": "F", "c.inc": "F", "t_tmp.f90": "F"}
+         "skip": "D", "skip/s.f90": "F", "c.inc": "F", "t_tmp.f90": "F", "d.INC": "F", "sub/e.Inc": "F", "up": "D", "up/only.INC": "F"}
     cfgs = [{}, {"source_dirs": ["sub"]}, {"source_dirs": ["sub/**"]}, {"source_dirs": ["**"]}, {"excl_paths": ["skip"]},
             {"excl_paths": ["sub"]}, {"incl_suffixes": [".inc"]}, {"excl_suffixes": ["_tmp.f90"]}, {"source_dirs": ["<ROOT>"]},
             {"source_dirs": ["sub", "nope"], "excl_paths": ["sub/x.F"]}, {"excl_paths": ["**/*.f90"]}]
@@ -323,6 +324,22 @@ def fixed_cases():
 
 
 def search_failing(ctx):
+    """used when an obligation breaks: the fixed cases against the independent specification"""
+    base = tempfile.mkdtemp(prefix="verif_c18_s_")
+    try:
+        for k, (t, cfg) in enumerate(fixed_cases()):
+            root = os.path.realpath(os.path.join(base, "r%d" % k))
+            os.makedirs(root)
+            cfg = json.loads(json.dumps(cfg).replace("<ROOT>", root))
+            write_tree(root, t)
+            got, indexed, out = impl_discover(root, cfg, "file")
+            want = oracle_spec(t, cfg, root)
+            if got != want:
+                return ("C18:file-set", "the set of indexed files differs from the specification",
+                        {"kind": "counterexample", "input": {"tree": sorted(t.items()), "config": json.loads(json.dumps(cfg).replace(root, "<ROOT>")), "channel": "file"},
+                         "implementation": sorted(got or []), "oracle": sorted(want)})
+    finally:
+        shutil.rmtree(base, ignore_errors=True)
     return None
 
 
@@ -339,7 +356,7 @@ def run(ctx):
                        "incl_suffixes, excl_suffixes) by file or command line; non-trivial = some option configured and > 2 entries; distinct by (tree, config)")
     changed = regex_tr.regenerate()
     ctx.extra["translator"] = {"regenerated": changed}
-    ctx.proof_obligations()
+    ctx.proof_obligations(search=lambda: search_failing(ctx))
     from .. import regexfid
     regexfid.run(ctx, 150 if ctx.quick() else 3000, only={"SRC_EXT_DEFAULT", "SRC_EXT_DEFAULT_BODY"})
     run_cases(ctx, fixed_cases(), "fixed")
